@@ -8,7 +8,7 @@ PROP = dict(
     lean_module="AbraProofs.Properties.C31",
     required_theorems=["C31_doc_table_matches_code", "C31_parser_total", "C31_parse_print_prefix", "C31_parse_print",
                        "C31_neg_literal_uniform", "C31_neg_literal_examples", "C31_fold_breaks_table",
-                       "C31_code_agrees_with_reference"],
+                       "C31_code_agrees_with_reference", "C31_code_extends_reference", "C31_reference_atom_blind"],
     harness_bin="c31",
     # the model's answer on malformed token lists (err/partial) is more than the property fixes; a
     # violation of the property itself is found by the harness's own oracle (tree vs. parser, value vs.
@@ -19,7 +19,11 @@ PROP = dict(
          "literals, printed with printMinimal, parsed by the real lexer+parser (verif_parse_expr) and compared with the tree, and "
          "evaluated by the real compiler+VM against a reference evaluator that evaluates the tree; (3) untyped trees over every "
          "node kind (postfix member/index/call/!/?, tuples, arrays), minimal and with redundant parentheses; (4) random token "
-         "soup for the error branches. Every case is also run through the Lean Pratt model on the token kinds the real lexer "
+         "soup for the error branches; (5) the exhaustive family `a op1 -L op2 c` (a negative literal as RIGHT operand followed by another "
+         "operator): all 15x15 operator pairs x L in {2, 2.5, 0, 9223372036854775808} x {plain, parenthesised, with newlines, as call "
+         "arguments}, three-operator chains with a rotating third operator, and evaluated int/float instances; each compared with "
+         "the variable form under literal<->variable substitution, with an independent reference parser in Rust (documented table, `-` "
+         "always a prefix operator of level 6) and with the model; the reference parser is also run on every other case. Every case is also run through the Lean Pratt model on the token kinds the real lexer "
          "produced. distinct = distinct token lists; non-trivial = at least two operator tokens, or the answer is not `ok`",
     nontrivial=lambda req, imp: sum(1 for w in req.split()[1:] if w in _OPS) >= 2 or not imp.startswith("ok"),
     trusted_base=COMMON_TB + [
